@@ -374,6 +374,7 @@ Plan gen_model(uint64_t seed, const string &prop) {
   p.cfg = random_config(r);
   p.sc = random_sched(r, false);
   p.params["prop"] = prop;
+  p.seti("clock_jumps", r.chance(0.3));
   int nkeys = (int)(r.chance(0.5) ? r.range(4, 24) : r.range(24, 200));
   std::vector<string> keys = make_keyspace(r, nkeys);
   int sizeclass = (int)r.below(10);
@@ -503,7 +504,9 @@ void exec_model(const Plan &p, RunOut *out) {
     c.keys.assign(ks.begin(), ks.end());
     simfs::start_recording(&c.journal, c.dir);
     open_db(c, true);
+    bool jumps = p.geti("clock_jumps", 0) != 0;
     for (size_t i = 0; i < p.ops.size() && !failed() && c.db; i++) {
+      if (jumps && c.aux.below(30) == 0) { sim::clock_jump((int64_t)c.aux.range(0, 7200) * 1000000 - 3600LL * 1000000); probe("fault:clock_jump"); }
       do_op(c, p.ops[i], (int)i);
       if (!failed() && i % 16 == 15) scan_journal(c);
     }
